@@ -118,6 +118,9 @@ def check(chk, repo):
                  + "; ".join(f"{d[0]} {d[2]} <- {d[3]} {d[4]}"[:160] for d in diff[:3])
     rep.fn("SEMI-sibling", fn, "seeding + competition are isomorphic to SupervisedOPF.fit up to one listed statement",
            same, detail, line=comp.loop.line)
+    # the unlabeled nodes must be identifiable rows of a pre-computed matrix (same rule as C10's K6)
+    from .c10 import check_row_ids
+    check_row_ids(chk, rep, repo, only={"SemiSupervisedOPF.fit"}, floor=1)
     chk.note("signature_lengths", {"semi": len(sig_semi), "supervised": len(sig_sup)})
     chk.floor("competition loops reachable from SemiSupervisedOPF.fit", len(comps), 2)
     chk.undecided.append("optimality of the recorded costs (IFT theorem, as C01)")
